@@ -88,7 +88,7 @@ func (c13Driver) Tier(t string) core.Tier {
 
 func (c13Driver) Info() core.Info {
 	return core.Info{
-		Rule: "Three kinds of case. (revisions) 1-4 module names and a submodule name with 1-3 texts each that differ in their revision lists (incl. deliberate duplicates of a (name, latest revision) pair), importers / includers with and without revision-date, loaded in all orders when <= 5 texts, else in 6 seeded orders; oracle: a reference binder (bare name = greatest latest revision, name@rev exact, second load of an equal pair rejected and the first stays, Import.Module / Include.Module after Process as prescribed, identical in every order). " +
+		Rule: "Split cases load the module in two revisions, split alike, with probability 1/25 (input class of open finding C13-tworev-sub); references to local definitions are written with the own prefix in a third of the texts. Three kinds of case. (revisions) 1-4 module names and a submodule name with 1-3 texts each that differ in their revision lists (incl. deliberate duplicates of a (name, latest revision) pair), importers / includers with and without revision-date, loaded in all orders when <= 5 texts, else in 6 seeded orders; oracle: a reference binder (bare name = greatest latest revision, name@rev exact, second load of an equal pair rejected and the first stays, Import.Module / Include.Module after Process as prescribed, identical in every order). " +
 			"(files) a simulated directory tree (current directory, 1-4 search-path entries, plain and dir/...) holding name.yang, name@YYYY-MM-DD.yang and near misses (name2.yang, name@2020-1-1.yang, name@2020-01-01.yang.bak, xname@..., name-x@..., a directory named like a candidate, the same name deeper in a ... tree, files of other modules), optional faults (unreadable directory, file listed then gone, read error); oracle: a reference chooser written from the documented rule decides which path Read must open (observed at the disk), or that Read must fail; under faults the opened file must be the prescribed one for the contents minus the faulted items or the call fails; never a file of a differently named module. " +
 			"(split) a generated module whose top-level typedefs, identities, groupings, data nodes and augments are distributed over 1-4 submodules (every submodule includes the lower ones, the module includes all); oracle: the structural dump of the split module equals that of the unsplit module under every load order and map order. Non-trivial: >= 2 texts of one name / >= 2 candidate files / >= 1 submodule holding >= 1 item. Distinct = distinct case descriptions.",
 		Assumptions: []string{
